@@ -313,6 +313,7 @@ pub fn record_classes(c: &Classes, p: &Prepared, st: &mut Stats) {
     flag("surface.comments_or_pis", p.ser.comments > 0);
     flag("surface.both_empty_forms", p.ser.selfclosed > 0 && p.ser.expanded_empty > 0);
     flag("surface.general_entity_refs", p.ser.entity_refs > 0);
+    flag("surface.xsi_nil_true", p.ser.nil_true > 0);
 }
 
 // ---------------------------------------------------------------------------------------
